@@ -463,7 +463,7 @@ V("c14-shared-zero-buffer", "C14", "fire", NO, "def zero():\n    return lambda n
 V("c14-cached-observational", "C14", "fire", LG, "        distribution = NormalDistribution(mean, covariance)\n", "        distribution = NormalDistribution(mean, covariance)\n        self._last = distribution\n", rule="M2.rebind", what="sample caches state on the model")
 V("c14-parse-writes-caller-dict", "C14", "fire", LG, "            interventions.append([target, params, 0])", "            interventions_dict[target] = (params, 0)\n            interventions.append([target, params, 0])", rule="M", what="the caller's intervention dict is rewritten")
 V("c04-pointmass-postprocessing", "C04", "fire", ND, "        return np.random.multivariate_normal(self.mean, self.covariance, size=n)", "        X = np.random.multivariate_normal(self.mean, self.covariance, size=n)\n        const = np.where(self.covariance.sum(axis=0) == 0)[0]\n        X[:, const] = self.mean[const]\n        return X", rule="NODECISION", what="point masses detected by a signed column sum")
-V("c06-mse-snapped-to-zero", "C06", "fire", ND, "        return mse\n", "        return 0.0 if np.isclose(mse, 0) else mse\n", rule="FORMULA.mse", what="tiny residual variances reported as 0")
+V("c06-mse-snapped-to-zero", "C06", "fire", ND, "        return mse\n", "        return 0.0 if np.isclose(mse, 0) else mse\n", rule=None, what="tiny residual variances reported as 0 (a value-dependent branch: NODECISION / TRAP.approx-branch; the formula comparison does not decide a branch-dependent value)")
 V("c12-skip-empty-intervention", "C12", "fire", GE, "            intervention = list(rng.choice(list(remaining_targets), size=sizes[i], replace=False))\n", "            if sizes[i] == 0:\n                continue\n            intervention = list(rng.choice(list(remaining_targets), size=sizes[i], replace=False))\n", rule="COUNT", what="size-0 interventions dropped: fewer than K lists")
 V("c12-max-guard-elif", "C12", "fire", GE, "    if not replace:\n        if max_size * K > p:\n            raise ValueError(\n                \"Cannot sample targets without replacement for the given intervention size and number of interventions.\")\n    # Check max size condition\n    if max_size > p:",
   "    if not replace:\n        if max_size * K > p:\n            raise ValueError(\n                \"Cannot sample targets without replacement for the given intervention size and number of interventions.\")\n    # Check max size condition\n    elif max_size > p:", rule="GUARD.max-size", what="max-size check skipped without replacement (K = 0)")
